@@ -7,7 +7,7 @@ Does not decide: first-key index arithmetic, duplicates across block boundaries 
 import re
 
 from mir import pl_fields, operand_places
-from tmpl import site, suffix, flows_from, local_defs
+from tmpl import site, suffix, flows_from, local_defs, origin_locals
 
 BUILD = 'executor::Builder::<S>::build_id_subscriber'
 START_ROWID = 'storage::secondary::rowset::disk_rowset::DiskRowset::start_rowid::{closure#0}'
@@ -90,6 +90,7 @@ def run(ctx):
                what='a range bound keeps the literal\'s type: `bigint_key > 1` compares Int64 keys with an Int32 bound through the '
                     'derived cross-variant order, so every row (or none) passes')
     mask_rule(ctx, prog)
+    bound_compare_rule(ctx, prog)
 
 
 def mask_rule(ctx, prog):
@@ -152,3 +153,63 @@ def first_effect(b, bb, limit=12):
         bb = b.blocks[bb]['term']['target'] if 'target' in b.blocks[bb]['term'] else b.succs[bb][0]
         limit -= 1
     return bb
+
+
+def bound_compare_rule(ctx, prog):
+    """C13-R5: range analysis never compares a value with a bound whose inclusivity it has thrown away"""
+    R5 = 'C13-R5'
+    ctx.rule(R5, 'in the planner\'s range analysis and the executor\'s KeyRange construction, a value taken out of a Bound through an arm '
+                 'shared by Included and Excluded (`Included(x) | Excluded(x)`) is never an operand of an ordering comparison: whether '
+                 '`v` lies inside a range depends on which of the two it was (`k = 5 AND k > 5` is empty, `k = 5 AND k >= 5` is not)')
+    n_sw = [0]
+    for b, c, hit in bound_compares(prog, n_sw):
+        ctx.functions_analysed.add(b.name)
+        ctx.ob(R5, f'{b.root}·compares-bound-without-inclusivity', not hit,
+               f'{b.name}: {c.fn} at block {c.bb} compares a value taken from a merged Included|Excluded arm', [site(b, c.bb)],
+               what=f'{b.root} compares a key with a range bound after discarding whether the bound is inclusive: a point on an '
+                    'exclusive bound is treated as inside the range')
+    ctx.floor(R5, n_sw[0], 4, 'matches on Bound in range analysis / KeyRange construction')
+    try:
+        import mir
+        fx = mir.load_fixture()
+        got = {b.root for b, c, hit in bound_compares(fx, [0]) if hit}
+        ctx.ob(R5, 'self-test·fixture', got == {'planner::rules::range::covers_merged'},
+               f'positive examples flagged: {sorted(got)}; expected exactly planner::rules::range::covers_merged')
+    except SystemExit as e:
+        ctx.ob(R5, 'self-test·fixture', False, f'fixture crate could not be analysed: {e}')
+
+
+def bound_compares(prog, n_sw):
+    """(body, comparison call, operands that come out of a merged Included|Excluded arm) in range analysis / KeyRange construction"""
+    scope = [b for b in prog.bodies.values() if re.match(r'^planner::rules::range::', b.name) or b.root == BUILD]
+    for b in scope:
+        payload = {}
+        for i, bl in enumerate(b.blocks):
+            t = bl['term']
+            if t['k'] != 'switch' or t.get('adt') != 'std::ops::Bound':
+                continue
+            n_sw[0] += 1
+            names = t.get('variants', {})
+            tg = {names.get(str(v)): x for v, x in t['targets']}
+            if tg.get('Included') is None or tg.get('Excluded') is None:
+                continue
+            if first_effect(b, tg['Included']) != first_effect(b, tg['Excluded']):
+                continue
+            e = first_effect(b, tg['Included'])
+            for arm in (tg['Included'], tg['Excluded']):
+                chain, x, lim = [arm], arm, 12
+                while x != e and lim and b.blocks[x]['term']['k'] == 'goto':
+                    x = b.succs[x][0]
+                    chain.append(x)
+                    lim -= 1
+                for x in chain:
+                    for st in b.blocks[x]['stmts']:
+                        if st['s'] == 'assign' and any(any(y in ('as:Included', 'as:Excluded') for y in pl['p']) for pl in operand_places(st['rv'])):
+                            payload[st['lhs']['l']] = x
+        if not payload:
+            continue
+        for c in b.calls:
+            if not re.search(r'std::cmp::(PartialOrd::(lt|le|gt|ge|partial_cmp)|Ord::(cmp|max|min))$', c.fn or ''):
+                continue
+            hit = [a for a in c.args if a['k'] != 'const' and set(payload) & origin_locals(b, a['pl']['l'], depth=10)]
+            yield b, c, hit
